@@ -214,6 +214,7 @@ func c16Bodies(rng *rand.Rand, seed int64) []c16Body {
 	out = append(out,
 		c16Body{"", true, "valid-empty"},
 		c16Body{"SessionExpiration = \"5m\"\nMaxSessions = 3\n", true, "valid-small"},
+		c16Body{"PostMessageCooloff = \"250ms\"\nMaxChannels = 9\n", true, "valid-no-expiration"},
 		c16Body{"SessionExpiration = \"10m\"\n[Banned]\n\"10.9.9.9\" = \"manual ban\"\n", true, "valid-with-ban"},
 		c16Body{"SessionExpiration = \"30m\n", false, "syntax"},
 		c16Body{"[IRC\nOperators = 3", false, "syntax"},
